@@ -272,7 +272,7 @@ func Schema(v any, ren RefRename) (string, error) {
 				return "", err
 			}
 			add(k, t)
-		case "properties", "defs":
+		case "properties", "defs", "ldefs":
 			l, _ := val.([]any)
 			ps := make([]string, len(l))
 			for i, e := range l {
@@ -282,7 +282,7 @@ func Schema(v any, ren RefRename) (string, error) {
 					return "", err
 				}
 				name := Key(m["k"])
-				if k == "defs" {
+				if k == "defs" || k == "ldefs" {
 					name = ren(name)
 				}
 				ps[i] = quote(name) + ":" + t
@@ -290,6 +290,9 @@ func Schema(v any, ren RefRename) (string, error) {
 			out := k
 			if k == "defs" {
 				out = "$defs"
+			}
+			if k == "ldefs" {
+				out = "definitions"
 			}
 			add(out, "{"+strings.Join(ps, ",")+"}")
 		case "required":
@@ -337,6 +340,18 @@ func Schema(v any, ren RefRename) (string, error) {
 				add("$ref", quote("#/definitions/"+ren(n)))
 			case "file":
 				add("$ref", quote(n))
+			case "path": // a reference into another document: segments as written + optional definition name
+				var segs []string
+				if l, ok := m["segs"].([]any); ok {
+					for _, x := range l {
+						segs = append(segs, str(x))
+					}
+				}
+				t := strings.Join(segs, "/")
+				if f := str(m["frag"]); f != "" {
+					t += "#/$defs/" + ren(f)
+				}
+				add("$ref", quote(t))
 			default:
 				return "", fmt.Errorf("unknown ref kind %v", m)
 			}
